@@ -18,6 +18,7 @@
 import Verif.Base.DrvLoop
 import Verif.Base.Parse
 import Verif.Model.WireMsg
+import Verif.Spec.Cursor
 namespace Verif.Wire
 
 def terrStr : TErr → String
@@ -199,6 +200,35 @@ def modelWire (args : List String) : String :=
         | .panic s => "PANIC " ++ s
         | .oob => "OOB") "ok"
     | none => "bad-op"
+  | "w-multi" :: _ :: vt =>
+    -- many values through one writer, ONE Flush at the end: one log
+    match parseSeq vt with
+    | some vs =>
+      if !vs.all goArgs then "bad-op" else
+      match vs.foldl (fun (acc : WOut WLog) v => acc.bind (fun w => bwWrite w zeros v)) (.ok ⟨[], none⟩) with
+      | .ok w => "ok " ++ toHex w.bytes
+      | .err e => "err " ++ rerrStr e
+      | .panic s => "PANIC " ++ s
+      | .oob => "OOB"
+    | none => "bad-op"
+  | ["r-two", h, src] =>
+    -- ReadString, Release, ReadString, then the first string again (it must not have changed)
+    match parseHex h, parseSrc src with
+    | some b, some src =>
+      match brRead .str (mkRd b src) with
+      | .ok (v1, r1) =>
+        match brRead .str r1.release with
+        | .ok (v2, r2) =>
+          (match v1, v2 with
+           | .str s1, .str s2 => s!"ok {toHex s1} {toHex s2} {toHex s1} {r2.readLen}"
+           | _, _ => "bad-op")
+        | .err e => "err2 " ++ terrStr e
+        | .panic s => "PANIC " ++ s
+        | .oob => "OOB"
+      | .err e => "err1 " ++ terrStr e
+      | .panic s => "PANIC " ++ s
+      | .oob => "OOB"
+    | _, _ => "bad-op"
   | "len" :: vt =>
     match parseVal vt with
     | some v => s!"ok {length v}"
@@ -289,11 +319,31 @@ def decodes (k : Kind) (b : Bytes) : Option Val :=
   | none => none
 
 /-- the Thrift exception type id for the cause of a failed buffer read -/
-def causeBuf (k : Kind) (b : Bytes) : String :=
+def causeBuf (k : Kind) (b : Bytes) : List String :=
   match k with
-  | .binary | .str => if b.length ≥ 4 && rd32 b ≥ 2147483648 then "pe2" else "pe1"
-  | .msg => if b.length < 4 then "pe1" else if rd32 b / 65536 != 0x8001 then "pe4" else "pe1"
-  | _ => "pe1"
+  | .binary | .str => if b.length ≥ 4 && rd32 b ≥ 2147483648 then ["pe2"] else ["pe1"]
+  | .msg =>
+    if b.length < 4 then ["pe1"] else if rd32 b / 65536 != 0x8001 then ["pe4"]
+    -- a negative NAME length inside a message header: invalid data or negative size (DESIGN §6.5)
+    else if b.length ≥ 8 && rd32 (b.drop 4) ≥ 2147483648 then ["pe1", "pe2"] else ["pe1"]
+  | _ => ["pe1"]
+
+/-- the domain of the writer / length verdicts: the Go argument ranges (so a field header with type
+    byte 0, any size, any string length are writer inputs), message types inside the property's 0..65535 -/
+def wdom (v : Val) : Bool :=
+  decide v.args && (match v with | .messageBegin _ t _ => decide (0 ≤ t) && decide (t < 65536) | _ => true)
+
+/-- the script the source of a reader follows (bytes readers: the empty script, io.EOF) -/
+def scriptOf : SrcKind → List Resp
+  | .bytes _ => []
+  | .script s => s
+
+/-- C17 provenance: the error wrapped by a stream reader is the source's own: the first error of the
+    script (io.EOF when it has none), or io.ErrNoProgress when the script has maxConsecutiveEmptyReads
+    error-free entries in a row -/
+def wrapAllowed (src : SrcKind) (e : String) : Bool :=
+  e == "pe0(" ++ rerrStr (firstErr (scriptOf src)) ++ ")" ||
+  (e == "pe0(noprogress)" && quietRun Facts.maxConsecutiveEmptyReads (scriptOf src) 0)
 
 def verdictWire (args : List String) (impl : String) : String :=
   let itoks := impl.splitOn " "
@@ -301,34 +351,63 @@ def verdictWire (args : List String) (impl : String) : String :=
   | "w-inplace" :: n :: vt =>
     match n.toNat?, parseVal vt with
     | some n, some v =>
-      if !decide v.wf || (enc v).length > n then "na" else
+      if !wdom v || (enc v).length > n then "na" else
       let want := s!"ok {toHex (enc v ++ fillA5 (n - (enc v).length))} {(enc v).length}"
       if impl == want then "ok" else s!"bad:{propOf v}:inplace"
     | _, _ => "na"
   | "w-append" :: p :: vt =>
     match parseHex p, parseVal vt with
     | some p, some v =>
-      if !decide v.wf then "na" else
+      if !wdom v then "na" else
       if impl == "ok " ++ toHex (p ++ enc v) then "ok" else s!"bad:{propOf v}:append"
     | _, _ => "na"
   | "w-stream" :: st :: vt =>
     match parseSetup st, parseVal vt with
     | some st, some v =>
-      if !decide v.wf || st.failed then "na" else
+      if !wdom v || st.failed then "na" else
       if impl == "ok " ++ toHex (st.log.bytes ++ enc v) then "ok" else s!"bad:{propOf v}:stream-write"
     | _, _ => "na"
   | "w-seq" :: _ :: vt =>
     match parseSeq vt with
     | some vs =>
-      if !vs.all (fun v => decide v.wf) then "na" else
+      if !vs.all wdom then "na" else
       let want := vs.foldl (fun acc v => acc ++ " " ++ toHex (enc v)) "ok"
       let prop := if vs.all (fun v => propOf v == "C12") then "C12" else "C01"
       if impl == want then "ok" else s!"bad:{prop}:stream-write-seq"
     | none => "na"
+  | "w-multi" :: _ :: vt =>
+    match parseSeq vt with
+    | some vs =>
+      if !vs.all wdom then "na" else
+      let want := "ok " ++ toHex (vs.foldl (fun acc v => acc ++ enc v) [])
+      if impl == want then "ok" else "bad:C01:stream-write-multi"
+    | none => "na"
+  | ["r-two", h, src] =>
+    match parseHex h, parseSrc src with
+    | some b, some src =>
+      match itoks with
+      | ["ok", h1, h2, h1b, _] =>
+        -- the value handed out first must still be what it was (C01: returns the original value; C16)
+        if h1 != h1b then "bad:C01:stream-read-stale" else
+        match decodes .str b with
+        | some (.str s1) =>
+          if h1 != toHex s1 then "bad:C01:stream-read" else
+          match decodes .str (b.drop (4 + s1.length)) with
+          | some (.str s2) => if h2 == toHex s2 then "ok" else "bad:C01:stream-read"
+          | _ => "ok"
+        | _ => "ok"
+      | "err1" :: _ => if (decodes .str b).isSome && live b src then "bad:C01:stream-read" else "ok"
+      | "err2" :: _ =>
+        (match decodes .str b with
+         | some (.str s1) =>
+           if (decodes .str (b.drop (4 + s1.length))).isSome && live b src then "bad:C01:stream-read" else "ok"
+         | _ => "ok")
+      | _ => "na"
+    | _, _ => "na"
   | "len" :: vt =>
     match parseVal vt with
     | some v =>
-      if !decide v.wf then "na" else
+      if !wdom v then "na" else
       if impl == s!"ok {(enc v).length}" then "ok" else s!"bad:{propOf v}:length"
     | none => "na"
   | ["r-buf", k, h] =>
@@ -352,7 +431,7 @@ def verdictWire (args : List String) (impl : String) : String :=
       | "err" :: e :: _ =>
         if (decodes k b).isSome then s!"bad:{propOfK k}:read"
         else if k == .msg && b.length ≥ 4 && (rd32 b / 65536 != 0x8001) != (e == "pe4") then "bad:C12:version"
-        else if e != causeBuf k b then "bad:C17:kind"
+        else if !(causeBuf k b).contains e then "bad:C17:kind"
         else "ok"
       | _ => "bad:protocol"
     | _, _ => "na"
@@ -363,17 +442,25 @@ def verdictWire (args : List String) (impl : String) : String :=
       let badVer : Bool := k == .msg && live b src && b.length ≥ 4 && rd32 b / 65536 != 0x8001
       let goodVer : Bool := k == .msg && live b src && b.length ≥ 4 && rd32 b / 65536 == 0x8001
       match itoks with
-      | "ok" :: _ =>
+      | "ok" :: rest =>
+        -- a returned value is always checked (liveness only gates "must succeed")
+        let l := (rest.getLast?.bind String.toNat?).getD (b.length + 1)
+        if l > b.length then s!"bad:{propOfK k}:stream-read" else
         match decodes k b with
         | some v =>
-          if !live b src then "na"
-          else if impl == s!"ok {valStr v} {(enc v).length}" then "ok" else s!"bad:{propOfK k}:stream-read"
-        | none => if badVer then "bad:C12:version" else "na"
+          if impl == s!"ok {valStr v} {(enc v).length}" then "ok" else s!"bad:{propOfK k}:stream-read"
+        | none =>
+          if badVer then "bad:C12:version"
+          else if k == .msg then
+            match parseVal rest.dropLast with
+            | some v => if enc v == b.take l then "ok" else "bad:C12:accepted"
+            | none => "bad:protocol"
+          else "ok"
       | "err" :: e :: _ =>
         if (decodes k b).isSome && live b src then s!"bad:{propOfK k}:stream-read"
         else if badVer && e != "pe4" then "bad:C12:version"
         else if goodVer && e == "pe4" then "bad:C12:version"
-        else if e.startsWith "pe0(" then "ok"
+        else if e.startsWith "pe0(" then (if wrapAllowed src e then "ok" else "bad:C17:stream-provenance")
         else if e == "pe2" && (k == .binary || k == .str || k == .msg) then "ok"
         else if e == "pe4" && k == .msg then "ok"
         else "bad:C17:stream-wrap"
@@ -392,7 +479,7 @@ def verdictMsg (args : List String) (impl : String) : String :=
   | ["rt", mh, t, s, et, emh] =>
     match parseHex mh, t.toInt?, s.toInt?, et.toInt?, parseHex emh with
     | some m, some t, some s, some et, some em =>
-      if !(decide (inI32 t) && decide (inI32 s) && decide (inI32 et)) then "na" else
+      if !(decide (0 ≤ t) && decide (t < 65536) && decide (inI32 s) && decide (inI32 et)) then "na" else
       if m.isEmpty then (if impl.startsWith "err" then "ok" else "bad:C12:empty-method") else
       let bytes := enc (.messageBegin m t s) ++ appExEnc ⟨et, em⟩
       let tgt0 := s!"tgt {target0.t} {toHex target0.m}"
